@@ -52,6 +52,7 @@ class Scope(BaseScope):
         self.top = top
         self.locals = set()   # type: set[str]
         self.globals = set()  # type: set[str]
+        self.nonlocals = set()  # type: set[str]
 
     @property
     def filename(self):
@@ -110,6 +111,10 @@ class Flow(object):
         name.scope = self.scope
         if name.name in self.scope.globals:
             self.scope.top.add_global(name)
+        elif name.name in self.scope.nonlocals:
+            # rebinds a variable of an enclosing function: not a local of this
+            # one, so where the rebinding is not visible the outer one still is
+            insert_loc(self._names, name)
         else:
             self.scope.locals.add(name.name)
             insert_loc(self._names, name)
